@@ -464,6 +464,103 @@ pub fn part_c15_threads(_tier: Tier) -> Part {
     part
 }
 
+/// C16 with the call made in a thread that is blocked inside a system call.
+pub fn part_c16_blocked_thread(_tier: Tier) -> Part {
+    let mut part = Part::new("c16_call_in_blocked_thread");
+    part.rule = "multi-threaded debuggee: a worker stops at a breakpoint while the main thread is blocked in futex(2) waiting for it; the main thread is put in focus and a function is called in it (once, and a second time); ALL registers of that thread read with PTRACE_GETREGS before and after each call, orig_rax included (it decides whether the interrupted system call is restarted), must be equal; the breakpoint is removed and the program must run to its normal end with its native output (the wait is resumed, not failed)".into();
+    let mt = match Mt::new(2, 3, 2, 2000) {
+        Ok(m) => m,
+        Err(e) => {
+            part.violate("MACHINERY:mt-build", e, json!(null));
+            return part;
+        }
+    };
+    let native = std::process::Command::new(&mt.built.exe).output().map(|o| (o.status.code(), String::from_utf8_lossy(&o.stdout).to_string())).unwrap_or((None, String::new()));
+    // the script waits for a stop at which the main thread really sits in futex(2)
+    let tail = vec![
+        json!({"op": "call_fn", "name": "mwork", "args": [5]}),
+        json!({"op": "call_fn", "name": "mwork", "args": [7]}),
+        json!({"op": "remove_line", "file": mt.file(), "line": mt.line("bump.1")}),
+        json!({"op": "continue"}),
+    ];
+    let head = vec![mt.bp("bump.1"), json!({"op": "start"}), json!({"op": "thread", "num": 1})];
+    let mut script_log: Vec<Value> = vec![];
+    let mut tail_from: Option<usize> = None;
+    let run = session(
+        &mt.built.exe,
+        |obs| {
+            let next = if let Some(t0) = tail_from {
+                tail.get(obs.len() - t0).cloned()
+            } else if obs.len() < head.len() {
+                Some(head[obs.len()].clone())
+            } else {
+                let last = obs.last().unwrap();
+                if last["cmd"]["op"] == "thread" {
+                    if last["real"]["orig_rax"].as_i64() == Some(202) {
+                        tail_from = Some(obs.len());
+                        tail.first().cloned()
+                    } else if obs.len() < 16 {
+                        Some(json!({"op": "continue"}))
+                    } else {
+                        None
+                    }
+                } else if last["res"]["kind"] == "breakpoint" {
+                    Some(json!({"op": "thread", "num": 1}))
+                } else {
+                    None
+                }
+            };
+            if let Some(n) = &next {
+                script_log.push(n.clone());
+            }
+            next
+        },
+        Duration::from_secs(60),
+        24,
+    );
+    let cmds = script_log.clone();
+    let replay = json!({"engine": "mt", "exe": mt.built.exe, "commands": cmds});
+    part.states = run.obs.len() as u64;
+    part.transitions = run.obs.len() as u64;
+    part.traces_validated = 1;
+    let Some(t0) = tail_from else {
+        part.violate("MACHINERY:c16-main-never-in-futex", format!("{} stops at the breakpoint, the main thread was never found waiting in futex", run.obs.iter().filter(|o| o["res"]["kind"] == "breakpoint").count()), replay);
+        return part;
+    };
+    if run.hang_at.is_some() || run.crashed.is_some() || run.obs.len() < t0 + tail.len() {
+        part.violate("C16:blocked-thread:session-broke", format!("hang {:?} crash {:?}", run.hang_at, run.crashed), replay);
+        return part;
+    }
+    let pid = run.obs[1]["pid"].as_i64().unwrap_or(0);
+    if run.obs[t0 - 1]["res"]["tid"].as_i64() != Some(pid) {
+        part.violate("MACHINERY:c16-main-not-selected", format!("{}", run.obs[t0 - 1]["res"]), replay.clone());
+    }
+    for i in [t0, t0 + 1] {
+        let r = &run.obs[i]["res"];
+        part.evaluations += 1;
+        if i == t0 && r["orig_rax_before"].as_i64() != Some(202) {
+            part.violate("MACHINERY:c16-main-not-in-futex", format!("orig_rax of the main thread before the call: {} (202 = futex expected)", r["orig_rax_before"]), replay.clone());
+        }
+        if r["call_ok"] != true {
+            part.violate("C16:blocked-thread:call-refused", format!("call #{}: {}", i + 1 - t0, r["call_err"]), replay.clone());
+            continue;
+        }
+        if r["diff"].as_array().map(|d| !d.is_empty()).unwrap_or(true) {
+            part.violate("C16:blocked-thread:registers-differ-after-call", format!("call #{}: [register, before, after] {}", i + 1 - t0, r["diff"]), replay.clone());
+        } else {
+            part.distinct_nontrivial += 1;
+        }
+    }
+    let stdout = run.result.as_ref().and_then(|r| r["stdout"].as_str()).unwrap_or("").to_string();
+    let last = &run.obs[t0 + 3]["res"];
+    if last["kind"] != "exit" || last["code"].as_i64().map(|c| c as i32) != native.0 || stdout != native.1 {
+        part.violate("C16:blocked-thread:program-does-not-end-natively", format!("{last}; stdout {stdout:?}; natively exit {:?} stdout {:?}", native.0, native.1), replay.clone());
+    }
+    part.sample(json!({"calls": [run.obs[t0]["res"].clone(), run.obs[t0 + 1]["res"].clone()], "end": last}));
+    part.bounds = json!({"calls": 2, "blocked_in": "futex"});
+    part
+}
+
 pub fn replay(rp: &Value) -> i32 {
     let exe = rp["exe"].as_str().unwrap_or("").to_string();
     let cmds: Vec<Value> = rp["commands"].as_array().cloned().unwrap_or_default();
